@@ -11,6 +11,8 @@ import LWV.Spec.Radiotap
 import LWV.Model.Frames
 import LWV.Spec.Frames
 import LWV.Model.Misc
+import LWV.Model.Classify
+import LWV.Spec.Classify
 /-
 Line-protocol driver: runs the executable Model (and Spec) on the same operation lines the C
 harness runs.  Compiled as `lwdriver` (nothing below imports Mathlib).
@@ -289,6 +291,38 @@ def rtgRange (lo hi : Nat) : String := Id.run do
 def randomMac (pfx : Option Bytes) (mode : Nat) (rnd : Bytes) : Bytes :=
   Model.randomMac pfx (if mode == 3 then [] else rnd)
 
+def showData (f : Model.Frame) : String :=
+  match Model.parseData f with
+  | .ok d => s!"data={toHex d.receiver}/{toHex d.transmitter}/{toHex d.body}"
+  | _ => "data=err"
+
+def showFrame (f : Model.Frame) : String :=
+  let rt := match f.radiotap with
+    | some i => s!"{i.length}/{i.flags}"
+    | none => "-"
+  s!"ok flags={f.flags} len={f.len} hl={f.headerLen} fc={toHex f.fc} hdr={toHex f.header} body={toHex f.body} rt={rt} {showData f}"
+
+/-- the property's expectation for a classification line -/
+def specCls (rt : Bool) (bs : Bytes) : String :=
+  let pre : Option (Nat × Bool × String) :=
+    if rt then
+      match Spec.rtFields bs with
+      | none => none
+      | some (itLen, fields) =>
+        let v := Spec.rtValues bs itLen fields 16
+        some (itLen, (v.flags / 16) % 2 == 1, s!"{itLen}/{v.flags}")
+    else some (0, false, "-")
+  match pre with
+  | none => "refuse"
+  | some (skip, fcs, rts) =>
+    match Spec.classifyCore bs skip fcs with
+    | none => "refuse"
+    | some s =>
+      let flags := (if s.fcs then 1 else 0) + (if s.qos then 2 else 0) + (if s.ordered then 4 else 0) + (if rt then 8 else 0)
+      let ty := ((s.fc.getD 0 0).toNat / 4) % 4
+      let data := if ty == 2 then s!"data={toHex ((s.header.drop 4).take 6)}/{toHex ((s.header.drop 10).take 6)}/{toHex s.body}" else "data=err"
+      s!"ok flags={flags} len={s.len} hl={s.headerLen} fc={toHex s.fc} hdr={toHex s.header} body={toHex s.body} rt={rts} {data}"
+
 def step (line : String) : String :=
   match line.trimAscii.toString.splitOn " " with
   | ["tagname", v] =>
@@ -402,6 +436,10 @@ def step (line : String) : String :=
         | .fault f => s!"FAULT {repr f}"
       m ++ " ;; spec=" ++ sp
     | _, _, _ => "bad-op"
+  | ["cls", rt, h] =>
+    match ofHex h with
+    | some bs => showOutcome showFrame (Model.classify (rt == "1") bs) ++ " ;; spec=" ++ specCls (rt == "1") bs
+    | none => "bad-op"
   | ["spec-ieee", kind] =>
     match specKinds.lookup kind with
     | some t => dumpTable t
